@@ -287,7 +287,7 @@ def parts(tier):
     q = tier == "quick"
     names = QUICK if q else list(PAIRINGS)
     libs = ["score_2.0.0", "testlib_3.0.0"] if q else list(hedenv.PARTNERED)
-    return [Part("differential", oracle_differential, strategy=differential_case(names), n=1500 if q else 48000),
+    return [Part("differential", oracle_differential, strategy=differential_case(names), n=1500 if q else 160000),
             Part("vocabulary", oracle_vocab, enumerate_fn=make_vocab_enum(libs), exhaustive=True),
             Part("refusal", oracle_refusal, enumerate_fn=make_refusal_enum(), exhaustive=True),
-            Part("reprefix", oracle_reprefix, strategy=reprefix_case(), n=24 if q else 400, sharded=True)]
+            Part("reprefix", oracle_reprefix, strategy=reprefix_case(), n=24 if q else 1600, sharded=True)]
